@@ -18,12 +18,12 @@ def run(ck):
     d = vlib.run_driver(drv, ["cells", wf, t1])
     if d["rc"] != 0:
         raise vlib.InfraError("driver failed rc=%s %s" % (d["rc"], d["err"][-1500:]))
-    ck.trace("model-cells", "Trace_Faces", "Trace.cfg", t1, nchunks=48, what="every cell of the model graph r<=2")
+    ck.trace("model-cells", "Trace_Faces", "Trace.cfg", t1, nchunks=16, what="every cell of the model graph r<=2")
     t2 = os.path.join(ck.tdir, "strata.ndjson")
     d = vlib.run_driver(drv, ["strata", ck.tier, ck.seed, t2])
     if d["rc"] != 0:
         raise vlib.InfraError("driver failed rc=%s %s" % (d["rc"], d["err"][-1500:]))
-    ck.trace("strata", "Trace_Faces", "Trace.cfg", t2, nchunks=48,
+    ck.trace("strata", "Trace_Faces", "Trace.cfg", t2, nchunks=16,
              what="pentagon disks, cells along the 30 icosahedron edges and their neighbours, random cells, r=0..15")
     ck.ev.assumptions += ["TLC 1.8 / JVM", "H3FaceIJK.tla transcription (checked against the digit-table graph and by round trip) "
                           "+ frozen tables", "geometric cross-observation: nearest of the 20 frozen face centres for interior sample "
